@@ -20,6 +20,7 @@ func init() {
 		PanicCapture(c, "R-PANIC", libPkgs(c), map[string]bool{"future.Apply": true, "future.Apply2": true})
 		SubOrder(c, "R-SUBORDER", []*packages.Package{c.Pkg("future"), c.Pkg("fp")}, 2)
 		FutStop(c, "R-FUTSTOP", []*packages.Package{c.Pkg("future"), c.Pkg("fp")}, 1)
+		CallbackParam(c, "R-CBPARAM", []*packages.Package{c.Pkg("future"), c.Pkg("fp")})
 	})
 }
 
@@ -38,6 +39,18 @@ type completeCtx struct {
 	why   string
 	depth int
 	decl  *ast.FuncDecl // enclosing declaration (resolves call-backs bound to a local)
+	// when the promise is held in a field of the receiver of a call-back method (failedProjection{np}.onComplete)
+	npRecv  types.Object
+	npField string
+}
+
+// isNP: does e denote the promise under analysis?
+func (cx *completeCtx) isNP(e ast.Expr) bool {
+	if cx.npField != "" {
+		se, ok := ast.Unparen(e).(*ast.SelectorExpr)
+		return ok && se.Sel.Name == cx.npField && objOf(cx.info, se.X) == cx.npRecv
+	}
+	return cx.np != nil && objOf(cx.info, e) == cx.np
 }
 
 // findLit unwraps conversions like fp.RunnableFunc(func(){...}).
@@ -58,12 +71,12 @@ func (cx *completeCtx) completingCall(call *ast.CallExpr) bool {
 	if !ok {
 		return false
 	}
-	if objOf(cx.info, sel.X) == cx.np && completions[sel.Sel.Name] {
+	if cx.isNP(sel.X) && completions[sel.Sel.Name] {
 		return true
 	}
 	// np.helper(…): a module method of Promise every path of which completes its receiver (or registers a literal that
 	// does) — e.g. `func (r Promise[T]) completeWith(f Future[T]) { f.OnComplete(func(t Try[T]) { r.Complete(t) }) }`
-	if objOf(cx.info, sel.X) == cx.np && !completions[sel.Sel.Name] && cx.depth < 3 {
+	if cx.isNP(sel.X) && !completions[sel.Sel.Name] && cx.depth < 3 {
 		if m, ok := cx.info.Uses[sel.Sel].(*types.Func); ok && m.Pkg() != nil && strings.HasPrefix(m.Pkg().Path(), core.ModPath) {
 			if fd := cx.c.FuncDecl(m.Origin()); fd != nil && fd.Body != nil && fd.Recv != nil && len(fd.Recv.List) == 1 && len(fd.Recv.List[0].Names) == 1 {
 				if hp := cx.c.ByPath[m.Pkg().Path()]; hp != nil {
@@ -103,6 +116,69 @@ func (cx *completeCtx) callbackCompletes(arg ast.Expr) bool {
 		}
 		return false
 	}
+	// a method value of a small struct that holds the promise in a field: T{np}.onComplete / T{target: np}.onComplete
+	if se, ok := ast.Unparen(arg).(*ast.SelectorExpr); ok && cx.depth < 3 {
+		m, _ := cx.info.Uses[se.Sel].(*types.Func)
+		base := ast.Unparen(se.X)
+		if id, isId := base.(*ast.Ident); isId && cx.decl != nil {
+			// a local bound once to the composite literal
+			o := cx.info.Uses[id]
+			cnt := 0
+			ast.Inspect(cx.decl.Body, func(x ast.Node) bool {
+				if as, ok := x.(*ast.AssignStmt); ok && len(as.Lhs) == len(as.Rhs) {
+					for i, l := range as.Lhs {
+						if objOf(cx.info, l) == o {
+							cnt++
+							base = ast.Unparen(as.Rhs[i])
+						}
+					}
+				}
+				return true
+			})
+			if cnt != 1 {
+				return false
+			}
+		}
+		if u, isAddr := base.(*ast.UnaryExpr); isAddr && u.Op == token.AND {
+			base = ast.Unparen(u.X)
+		}
+		cl, isLit := base.(*ast.CompositeLit)
+		if m == nil || !isLit || m.Pkg() == nil || !strings.HasPrefix(m.Pkg().Path(), core.ModPath) {
+			return false
+		}
+		tv, ok := cx.info.Types[cl]
+		if !ok {
+			return false
+		}
+		st, ok := tv.Type.Underlying().(*types.Struct)
+		if !ok {
+			return false
+		}
+		field := ""
+		for i, el := range cl.Elts {
+			if kv, isKV := el.(*ast.KeyValueExpr); isKV {
+				if objOf(cx.info, kv.Value) == cx.np && cx.npField == "" {
+					if k, ok := kv.Key.(*ast.Ident); ok {
+						field = k.Name
+					}
+				}
+			} else if objOf(cx.info, el) == cx.np && cx.npField == "" && i < st.NumFields() {
+				field = st.Field(i).Name()
+			}
+		}
+		fd := cx.c.FuncDecl(m.Origin())
+		hp := cx.c.ByPath[m.Pkg().Path()]
+		if field == "" || fd == nil || fd.Body == nil || hp == nil || fd.Recv == nil || len(fd.Recv.List) != 1 || len(fd.Recv.List[0].Names) != 1 {
+			return false
+		}
+		sub := &completeCtx{c: cx.c, info: hp.TypesInfo, memo: map[*ast.FuncLit]bool{}, depth: cx.depth + 1, decl: fd,
+			npRecv: hp.TypesInfo.Defs[fd.Recv.List[0].Names[0]], npField: field}
+		if sub.bodyCompletes(fd.Body) {
+			return true
+		}
+		cx.why = sub.why
+		return false
+	}
 	call, ok := ast.Unparen(arg).(*ast.CallExpr)
 	if !ok || cx.depth >= 3 {
 		return false
@@ -121,7 +197,7 @@ func (cx *completeCtx) callbackCompletes(arg ast.Expr) bool {
 	idx := 0
 	for _, f := range fd.Type.Params.List {
 		for _, nm := range f.Names {
-			if idx < len(call.Args) && objOf(cx.info, call.Args[idx]) == cx.np {
+			if idx < len(call.Args) && cx.isNP(call.Args[idx]) {
 				param = hp.TypesInfo.Defs[nm]
 			}
 			idx++
